@@ -13,7 +13,7 @@ Local Open Scope N_scope.
 Ltac Zify.zify_post_hook ::= Z.div_mod_to_equations.
 
 (** ---- sizes and bytes ---- *)
-Lemma enc_titems_len l : (tcfuel l <= 2 * length (enc_titems l))%nat /\ (tszs l <= length (enc_titems l))%nat /\ (tcnts l <= length (enc_titems l))%nat /\
+Lemma enc_titems_len l : (tcfuel l <= 3 * length (enc_titems l))%nat /\ (tszs l <= length (enc_titems l))%nat /\ (tcnts l <= length (enc_titems l))%nat /\
   (length l <= length (enc_titems l))%nat.
 Proof.
   induction l as [|x t IHt]; [cbn; lia|]. destruct IHt as (A' & B' & C' & D').
